@@ -350,3 +350,13 @@ def gen_storage(ch: Chooser, *, allow_status: bool = True) -> Optional[dict[str,
     if ch.bool(0.3):
         st['v1'] = False
     return st
+
+
+def snapshots(run: runner.Run) -> dict[tuple[Any, Any], dict[str, Any]]:
+    """(uid, resourceVersion) -> the object as the server stored it at that version."""
+    snaps: dict[tuple[Any, Any], dict[str, Any]] = {}
+    for tr in run.transitions:
+        for obj in (tr.before, tr.after):
+            if obj is not None:
+                snaps[(obj['metadata'].get('uid'), obj['metadata'].get('resourceVersion'))] = obj
+    return snaps
